@@ -54,15 +54,33 @@ func c11Member(r *core.Rand, kind int) (p rtcp.Packet, cname string) {
 		t := gen.Text(r)
 		s := &rtcp.SourceDescription{}
 		if r.Bool() {
-			// later item of the first chunk
-			s.Chunks = []rtcp.SourceDescriptionChunk{{Source: r.U32(), Items: []rtcp.SourceDescriptionItem{{Type: rtcp.SDESName, Text: "n"}, {Type: rtcp.SDESTool, Text: ""}, {Type: rtcp.SDESCNAME, Text: t}}}}
+			// later item of the first chunk, after 1..3 items of any other type; type 0 (the
+			// end-of-list octet used as a type) makes the value impossible to marshal but does not
+			// end the list for Validate or CNAME
+			var items []rtcp.SourceDescriptionItem
+			for n := 1 + r.Intn(3); n > 0; n-- {
+				ty := rtcp.SDESType(2 + r.Intn(254))
+				if r.Chance(1, 4) {
+					ty = rtcp.SDESEnd
+				}
+				items = append(items, rtcp.SourceDescriptionItem{Type: ty, Text: gen.Text(r)})
+			}
+			items = append(items, rtcp.SourceDescriptionItem{Type: rtcp.SDESCNAME, Text: t})
+			if r.Chance(1, 3) {
+				items = append(items, rtcp.SourceDescriptionItem{Type: rtcp.SDESType(r.Pick(0, 1, 2, 8, 255)), Text: "after"})
+			}
+			s.Chunks = []rtcp.SourceDescriptionChunk{{Source: r.U32(), Items: items}}
 		} else {
 			// later chunk
 			s.Chunks = []rtcp.SourceDescriptionChunk{{Source: r.U32()}, {Source: r.U32(), Items: []rtcp.SourceDescriptionItem{{Type: rtcp.SDESEmail, Text: "e"}}}, {Source: r.U32(), Items: []rtcp.SourceDescriptionItem{{Type: rtcp.SDESCNAME, Text: t}, {Type: rtcp.SDESCNAME, Text: "later"}}}}
 		}
 		return s, t
 	case 5:
-		s := &rtcp.SourceDescription{Chunks: []rtcp.SourceDescriptionChunk{{Source: r.U32(), Items: []rtcp.SourceDescriptionItem{{Type: rtcp.SDESType(2 + r.Intn(254)), Text: gen.Text(r)}}}}}
+		ty := rtcp.SDESType(2 + r.Intn(254))
+		if r.Chance(1, 6) {
+			ty = rtcp.SDESEnd
+		}
+		s := &rtcp.SourceDescription{Chunks: []rtcp.SourceDescriptionChunk{{Source: r.U32(), Items: []rtcp.SourceDescriptionItem{{Type: ty, Text: gen.Text(r)}}}}}
 		if r.Bool() {
 			s.Chunks = append(s.Chunks, rtcp.SourceDescriptionChunk{Source: r.U32()})
 		}
@@ -80,6 +98,22 @@ func c11Member(r *core.Rand, kind int) (p rtcp.Packet, cname string) {
 	default:
 		return gen.RawValue(r), ""
 	}
+}
+
+// c11HasType0 reports an SDES item whose type is 0: such a value cannot be marshalled.
+func c11HasType0(p rtcp.Packet) bool {
+	s, ok := p.(*rtcp.SourceDescription)
+	if !ok {
+		return false
+	}
+	for _, c := range s.Chunks {
+		for _, it := range c.Items {
+			if it.Type == rtcp.SDESEnd {
+				return true
+			}
+		}
+	}
+	return false
 }
 
 // c11Accept is the independent acceptor; it returns the expected CNAME when accepted.
@@ -114,8 +148,8 @@ func c11Judge(cs *core.Case, kinds []int) {
 		cp = append(cp, p)
 		cnames[i] = cn
 		names[i] = c11KindNames[k]
-		if k == 2 {
-			hasRR32 = true
+		if k == 2 || c11HasType0(p) {
+			hasRR32 = true // cannot be marshalled
 		}
 	}
 	accepted, wantCNAME := c11Accept(kinds, cnames)
